@@ -265,7 +265,7 @@ func CompactJSON(input, output []byte) []byte {
 			// Skip over whitespace.
 			continue
 		}
-		if c == '-' && input[i] == '0' {
+		if c == '-' && i < len(input) && input[i] == '0' && !(i+1 < len(input) && (input[i+1] == '.' || input[i+1] == 'e' || input[i+1] == 'E')) {
 			// Negative 0 is changed to '0', skip the '-'.
 			continue
 		}
